@@ -41,6 +41,8 @@ func b12corpus() []string {
 		"syntax = \"proto2\";\nmessage M { optional int32 a = 1 [deprecated]; optional int32 b = 2 [default]; extensions 1 to max [x]; }\n",
 		"syntax = \"proto3\";\noption (a.b).c = { x: 1, y: [1, 2, {z: \"s\" \"t\"}], [ext.n]: <k: -inf> };\nenum E { option allow_alias = true; A = 0; B = 0 [(o) = 1]; reserved 2, 3 to max, \"C\"; }\n",
 		"edition = \"2023\";\nimport public \"a.proto\"; import weak \"b.proto\";\nservice S { rpc R (stream .a.B) returns (c.D) { option idempotency_level = IDEMPOTENT; }; ; }\nextend Foo { string s = 1; }\n",
+		// edition 2024 syntax: import modifiers (incl. "option"), visibility keywords, with trivia
+		"edition = \"2024\";\npackage p;\nimport \"a.proto\";\nimport public \"b.proto\"; // re-exported\nimport weak \"c.proto\";\nimport option \"d.proto\";\nimport /* opts */ option /* too */ \"e.proto\" ;\nexport message M { local.Foo a = 1; export /*k*/ . b . C c = 2; }\nlocal enum E { E0 = 0; }\nexport message N { local message Inner {} export enum IE { X = 0; } }\n",
 		// value-less compact options under every syntax (validation looks some of them up by name)
 		"syntax = \"proto3\";\nmessage M { string a = 1 [default]; repeated int32 b = 2 [packed, features]; }\nenum E { Z = 0 [features]; }\n",
 		"edition = \"2023\";\nmessage M { repeated int32 a = 1 [packed]; string b = 2 [default, default]; int32 c = 3 [json_name]; }\n",
